@@ -499,7 +499,7 @@ class Interp:
             recv = self._safe_ev(fn.value)
             if isinstance(recv, PyModel) and hasattr(recv, fn.attr):
                 return getattr(recv, fn.attr)(*args, **kwargs)
-            if isinstance(recv, Opaque) and recv.label not in ('aug',):
+            if isinstance(recv, Opaque) and recv.label not in ('aug',) and not isinstance(fn.value, ast.Name):
                 return Opaque(f'{recv.label}.{fn.attr}()')
             if isinstance(recv, Rec) and 'cls' in recv.f and isinstance(recv.f['cls'], str) and self.depth < 4 \
                     and not (isinstance(fn.value, ast.Name) and fn.value.id in self.effects):
@@ -745,7 +745,9 @@ class Interp:
         cache = self.__dict__.setdefault('_lazy_cache', {})
         if name in cache:
             return cache[name]
-        binds = [x for x in ast.walk(self.scope_fn) if isinstance(x, ast.Name) and isinstance(x.ctx, ast.Store) and x.id == name]
+        from .flow import _stores
+        allb = _stores(self.scope_fn).get(name, ())
+        binds = [x for x in allb if isinstance(x, ast.Name)] if len(allb) == 1 else list(allb) + [None]
         val = None
         if len(binds) == 1:
             st = binds[0]
